@@ -761,8 +761,13 @@ class Interp:
                     if c == T.FALSE:
                         continue
                     if c != T.TRUE:
-                        seq = None
-                        break
+                        # a symbolic filter over a SHORT concrete sequence is decided like an `if` (one path per outcome)
+                        if len(seq) <= 6 and not T.has_opaque(c) and self.user_decide is not None:
+                            if not self.decide(c, e):
+                                continue
+                        else:
+                            seq = None
+                            break
                     if kind == "dict":
                         out_d[self._hashable(self.eval(e.key))] = self.eval(e.value)
                     else:
